@@ -332,8 +332,35 @@ def checkFunction (x : Info) (globalIds : List Nat) (f : FnBody) : List String :
     return r
   let dom := dominators f.blocks reach
   let defBlock : List (Nat × Nat) := f.blocks.flatMap (fun b => b.2.filterMap (fun i => (resultId i).map (fun r => (r, b.1))))
+  -- every merge block / continue target declared in the function (exits of some construct)
+  let exits : List Nat := f.blocks.flatMap (fun b => b.2.flatMap (fun i =>
+    if i.op == 246 then [i.ws.getD 0 0, i.ws.getD 1 0] else if i.op == 247 then [i.ws.getD 0 0] else []))
+  let predsOf (l : Nat) : List Nat :=
+    (f.blocks.filter (fun b => ((b.2.getLast?.map branchTargets).getD []).contains l)).map (·.1)
   let mut firstBlock := true
   for (l, is) in f.blocks do
+    -- OpPhi: the parent operands are exactly the predecessors of the block, each once
+    for i in is do
+      if i.op == 245 then
+        let w := i.ws.toList.drop 2
+        let rec parents : List Nat → List Nat
+          | _ :: p :: tl => p :: parents tl
+          | _ => []
+        let ps := parents w
+        let want := (predsOf l).eraseDups
+        if ps.length != ps.eraseDups.length then errs := s!"block %{l}: OpPhi %{i.ws.getD 1 0} lists a parent block twice" :: errs
+        else if !(ps.all want.contains && want.all ps.contains) then
+          errs := s!"block %{l}: OpPhi %{i.ws.getD 1 0} parents {ps} are not the predecessors {want} of the block" :: errs
+    -- structured selection: a conditional branch to two different blocks needs an OpSelectionMerge / OpLoopMerge unless
+    -- at most one of its targets is not an exit (merge block / continue target) of some construct
+    match is.getLast? with
+    | some t =>
+      if t.op == 250 && reach.contains l then
+        let hasMerge := is.dropLast.getLast?.map (fun i => i.op == 246 || i.op == 247) == some true
+        let tg := (branchTargets t).eraseDups
+        if !hasMerge && (tg.filter (fun b => !exits.contains b)).length > 1 then
+          errs := s!"block %{l}: OpBranchConditional to {tg} without a merge instruction (selection is not structured)" :: errs
+    | none => pure ()
     -- termination: exactly one terminator, at the end (by construction of the split) and none before
     if is.dropLast.any (fun i => isTerminator i.op) then errs := s!"block %{l}: terminator in the middle" :: errs
     -- merge instructions immediately before the terminator
@@ -429,8 +456,8 @@ def validate (b : Bin) (expectVersion : Nat) : List String := Id.run do
       else sec := s
     | none => if i.op == 54 then inFunctions := true
   if memModels != 1 then errs := "exactly one OpMemoryModel required" :: errs
-  -- unique non-aggregate types
-  let nonAgg := b.insts.filter (fun i => i.op == 19 || i.op == 20 || i.op == 21 || i.op == 22 || i.op == 23 || i.op == 24 || i.op == 32 || i.op == 33)
+  -- unique non-aggregate, non-pointer types (void bool int float vector matrix image sampler sampled-image function)
+  let nonAgg := b.insts.filter (fun i => i.op == 19 || i.op == 20 || i.op == 21 || i.op == 22 || i.op == 23 || i.op == 24 || i.op == 25 || i.op == 26 || i.op == 27 || i.op == 33)
   let keys := nonAgg.map (fun i => (i.op, i.ws.toList.drop 1))
   if keys.length != keys.eraseDups.length then errs := "a non-aggregate type is declared twice" :: errs
   -- module-scope typing (constants) and references
